@@ -257,6 +257,7 @@ def run_unit(unit, case, tier="quick"):
             clause_res[cn] = ObResult(f"{uname}:{cn}")
         excfree = ObResult(f"{uname}:exc-free")
         nret = 0
+        engine_limited = False
         for pi, out in enumerate(outcomes):
             assum = out.state.all_assumptions()
             ptag = f"path{pi}"
@@ -269,6 +270,11 @@ def run_unit(unit, case, tier="quick"):
                     goal = sv.zb(allowed) if not isinstance(allowed, bool) else z3.BoolVal(allowed)
                 v = solve.prove(assum, goal, timeout, unit.solver_opts)
                 v.reason = (v.reason + f" raises {out.exc}: {out.msg} at {out.state.where}").strip()
+                if out.exc == "unresolved-callee" and v.status != solve.PROVED and not getattr(unit, "unresolved_is_failure", False):
+                    # the engine has no contract for a library function the code calls: not a verdict about the code
+                    v.status = solve.UNDECIDED
+                    v.reason = "engine limit (no library contract): " + v.reason
+                    engine_limited = True
                 excfree.add(v, ptag)
                 continue
             nret += 1
@@ -298,7 +304,8 @@ def run_unit(unit, case, tier="quick"):
                 r, _ = solve.satisfiable(out.state.all_assumptions(), timeout_s=5)
                 if r != "unsat":
                     ncov += 1
-        cover.add(solve.Verdict(solve.PROVED if ncov > 0 else solve.REFUTED, "z3-5.1", 0, reason=f"{ncov} feasible returning paths"))
+        cover.add(solve.Verdict(solve.PROVED if ncov > 0 else (solve.UNDECIDED if engine_limited else solve.REFUTED), "z3-5.1", 0,
+                                reason=f"{ncov} feasible returning paths" + (" (a path stopped at an engine limit)" if engine_limited else "")))
         res["covered_paths"] = ncov
         # side obligations (safety)
         safety = ObResult(f"{uname}:safety")
@@ -315,6 +322,12 @@ def run_unit(unit, case, tier="quick"):
             safety.add(v, so.kind)
         if not side:
             safety.add(solve.Verdict(solve.PROVED, "engine", 0, reason="no side obligations"))
+        # hidden state: the function (and the repo helpers inlined into it) must not use module-level mutable state
+        hs = ObResult(f"{uname}:no-module-level-mutable-state")
+        found = hidden_state_scan(unit.module, unit.qualname, sorted(interp.inlined))
+        hs.add(solve.Verdict(solve.PROVED if not found else solve.REFUTED, "ast-scan", 0,
+                             reason="; ".join(found) if found else "no module-level mutable container, no `global` statement"))
+        res["obligations"].append(hs.finish().as_dict())
         res["obligations"].append(excfree.finish().as_dict())
         res["obligations"].append(cover.finish().as_dict())
         res["obligations"].append(safety.finish().as_dict())
@@ -345,3 +358,47 @@ def prove_lemmas(prefix, lemmas, timeout=20, opts=None):
             ob.add(solve.prove([], gz, timeout, opts))
             out.append(ob.finish().as_dict())
     return out
+
+
+_MUTABLE_CALLS = {"dict", "list", "set", "defaultdict", "OrderedDict", "deque", "Counter"}
+
+
+def hidden_state_scan(module, qualname, inlined):
+    """names of module-level mutable containers read, and `global` statements, in the function under contract and in
+    the repo functions that were inlined into it (syntactic; sound for the subset the engine executes)"""
+    found = []
+    todo = [(module, qualname)]
+    for key in inlined:
+        parts = key.split(".")
+        for cut in (len(parts) - 1, len(parts) - 2):
+            mname, q = ".".join(parts[:cut]), ".".join(parts[cut:])
+            if load_module(mname) is not None:
+                todo.append((mname, q))
+                break
+    for mname, q in todo:
+        m = load_module(mname)
+        try:
+            node = _find(m, q)
+        except KeyError:
+            continue
+        mutable = set()
+        for name, val in m.globals_nodes.items():
+            if isinstance(val, (ast.Dict, ast.List, ast.Set, ast.ListComp, ast.DictComp, ast.SetComp)):
+                mutable.add(name)
+            elif isinstance(val, ast.Call) and isinstance(val.func, ast.Name) and val.func.id in _MUTABLE_CALLS:
+                mutable.add(name)
+        local = {a.arg for a in node.args.args + node.args.kwonlyargs + node.args.posonlyargs}
+        for n in ast.walk(node):
+            if isinstance(n, ast.Name) and isinstance(n.ctx, ast.Store):
+                local.add(n.id)
+        for n in ast.walk(node):
+            if isinstance(n, ast.Global):
+                found.append(f"{mname}.{q}: global {', '.join(n.names)}")
+            elif isinstance(n, ast.Name) and isinstance(n.ctx, ast.Load) and n.id in mutable and n.id not in local:
+                found.append(f"{mname}.{q} reads module-level mutable container {n.id!r}")
+            elif isinstance(n, ast.Call) and isinstance(n.func, ast.Name) and n.func.id not in local and n.func.id in m.defs \
+                    and isinstance(m.defs[n.func.id], ast.FunctionDef):
+                # same-module helper: scan it too (once)
+                if (mname, n.func.id) not in todo:
+                    todo.append((mname, n.func.id))
+    return sorted(set(found))
